@@ -74,6 +74,11 @@ CHECKS = {
          "(a) 4.2 million layouts: working dir (or none), GOPATH, GOROOT over all paths of depth <=2 and file over all paths of depth <=3 over the segments {go,src,w,go-x,w.go} (every prefix/equality/substring relation occurs), executed inside the instrumented binaries on the real shortenLocation; expanding the printed prefix must give back the input. (b) 16 header classes (licence, marker, marker as package doc, licence-then-marker, marker-then-licence, trailing/leading text, mid-sentence, block comments, after the package clause, second line of a group, lower case, no period, build tag first) on the real isGenerated vs go/ast.IsGenerated. (c) real go-critic/gocritic: workspace with plain/_test/generated/generated-test/clean files, same-named files in different packages of which one is generated (both orders), a directory named w.go, x checkTests x checkGenerated x exitCode {1,0,3,255} x shorterErrLocation x {module root, sub-directory, absolute arguments} x package sets: every expected diagnostic exactly once with a location that resolves to the real file:line:col, nothing for filtered files, exit 0 iff no line else the configured code.",
          "Expected diagnostics come from the same checker run in-process (assignOp); $GOROOT-prefixed output is only covered by the layout sweep.",
          "DESIGN.md section 3, C16"),
+ "C08": ("exploration",
+         "exhaustive differential enumeration: workspaces x configurations expressible in both flag dialects x the four real binaries, pairwise equality of normalised diagnostics; registry and quick-fix forwarding compared in-process",
+         "4 workspaces (single package, in-package tests, external tests, three packages) x {default, enable-all, two -go versions, 8 enable/disable list pairs with explicit -disable on both sides, every checker parameter at a non-default value} x go-critic, gocritic, go-critic-analysis, gocritic-analysis: diagnostics normalised to (file,line,col,checker,message) must be equal as sets and each printed exactly once. In-process: every checker registered for the CLI must be in the analyzer's registry snapshot (read through an overlay-added hook), and a quick fix (commentFormatting) must arrive as exactly one SuggestedFix with one TextEdit equal to From/To/Replacement.",
+         "go-critic is the reference front-end. The missing rule-based checkers in the analyzer are one recorded finding (keyed by root cause), so any other disagreement still alarms.",
+         "DESIGN.md section 3, C08"),
 }
 
 PENDING = {
